@@ -51,6 +51,10 @@ type Case struct {
 	SharedOpts bool `json:"shared_opts,omitempty"`
 	// RevOpts: subscribe options are passed in the order Sequential, Async, Once instead of Once, Async, Sequential.
 	RevOpts bool `json:"rev_opts,omitempty"`
+	// PanicMod > 0: a handler panics when it is done with an event whose id
+	// plus the handler's slot is a multiple of PanicMod.  The bus contains
+	// the panic; who receives what, and the registry, are as without it.
+	PanicMod int `json:"panic_mod,omitempty"`
 }
 
 type hkey struct {
@@ -338,10 +342,14 @@ func (e *env) OnHandler(ti, slot int, ctxAware bool, ctx context.Context, id int
 			rec.Val = v
 		}
 	}
+	boom := e.c.PanicMod > 0 && (id+slot)%e.c.PanicMod == 0
 	if vkit.Goid() != e.mainG {
 		e.mu.Lock()
 		e.async = append(e.async, rec)
 		e.mu.Unlock()
+		if boom {
+			panic(fmt.Sprintf("handler %s fails", rec))
+		}
 		return
 	}
 	e.mu.Lock()
@@ -355,6 +363,9 @@ func (e *env) OnHandler(ti, slot int, ctxAware bool, ctx context.Context, id int
 			e.exec(no, fmt.Sprintf("s%d.%d.%v/%d", k.ti, k.slot, k.ctx, i))
 		}
 		e.stack = e.stack[:len(e.stack)-1]
+	}
+	if boom {
+		panic(fmt.Sprintf("handler %s fails", rec))
 	}
 }
 
